@@ -76,6 +76,11 @@ M = [
  ('clone-shares-initial', 'stage.py', "        ret._initial = HashOrderedDict(zip(res[n_constr+1:], initial_values))", "        ret._initial = HashOrderedDict()", ['C12']),
  ('stage-objective-dropped', 'sampling_method.py', "    def add_objective(self, stage, opti):\n        opti.add_objective(self.eval(stage, stage._objective))", "    def add_objective(self, stage, opti):\n        if stage is stage.master or stage.master._stages[0] is stage: opti.add_objective(self.eval(stage, stage._objective))", ['C12']),
  ('master-eval-wrong-stage', 'sampling_method.py', "        return stage.master._method.eval_top(stage.master,\n                                             stage._expr_apply(expr,\n                                                               p=veccat(*self.P),", "        return stage.master._method.eval_top(stage.master,\n                                             stage.master._stages[0]._expr_apply(expr,\n                                                               p=veccat(*self.P),", ['C12']),
+ # --- C07
+ ('intg-sample-u-next', 'sampling_method.py', "                                                               u=self.U[k], p_control=self.get_p_control_at(stage, k),", "                                                               u=self.U[min(k+1,len(self.U)-1)], p_control=self.get_p_control_at(stage, k),", ['C07']),
+ ('dm2numpy-order', 'casadi_helpers.py', "def DM2numpy(dm, expr_shape, tdim=None):", "def DM2numpy(dm, expr_shape, tdim=None):\n    if tdim and expr_shape[0]>1 and expr_shape[1]>1:\n        import numpy as _np\n        return _np.array(dm).reshape((expr_shape[0], tdim, expr_shape[1]), order='F').transpose((1,2,0))", ['C07']),
+ ('root-sample-z', 'sampling_method.py', "                                                               z=self.zr[k][i][:,j] if self.zk else nan,", "                                                               z=self.zr[k][i][:,0] if self.zk else nan,", ['C02']),
+ ('value-eval-T', 'sampling_method.py', "                                                               t0=stage.t0,\n                                                               T=stage.T))", "                                                               t0=stage.T,\n                                                               T=stage.T))", ['C07']),
 ]
 
 def main():
